@@ -69,6 +69,18 @@ def histories(seed, n, quick):
         rts = [("Ref", "EvAB"), ("Ref", "EvAC"), ("Object", [("page", ac), ("m", ("Ref", "Meta"))], []), ("Array", ("Ref", "EvAB"))]
         calls = r.sample([0, 1], 2) + [r.randrange(len(rts)) for _ in range(r.randrange(0, 4))]
         out.append({"env": env, "rts": rts, "calls": calls})
+    # two different discriminated unions with the same discriminator and the same key set (only the payloads differ)
+    for i in range(max(10, n // 6)):
+        d = r.choice(["kind", "type", "tag"])
+        ks = r.sample(["a", "b", "c", "CRON", "EVENT"], r.randrange(2, 4))
+        def union(tag):
+            ms = [("Object", [(d, ("Const", k)), (tag + k.lower(), g.leaf())] + ([("n", g.leaf())] if r.random() < 0.4 else []), []) for k in ks]
+            mp = [(k, m) for k, m in zip(ks, ms)]
+            return ("Disc", ms, d, mp, mp)
+        env = [("JobA", union("p")), ("JobB", union("q"))]
+        rts = [("Ref", "JobA"), ("Ref", "JobB"), ("Object", [("a", ("Ref", "JobA")), ("b", ("Array", ("Ref", "JobB")))], []), union("r")]
+        calls = r.sample([0, 1], 2) + [r.randrange(len(rts)) for _ in range(r.randrange(0, 4))]
+        out.append({"env": env, "rts": rts, "calls": calls})
     return out
 
 
